@@ -61,6 +61,9 @@ type node struct {
 	target  string
 	xattrs  map[string][]byte
 	holes   bool // the file was punched / has unmapped blocks
+	// unwritten: [first,last] file blocks preallocated with debugfs fallocate (an unwritten extent: reads as zeros);
+	// a library that does not support them may refuse the file with an error
+	unwritten [][2]int
 	frag    bool // written into fragmented free space (many extents, no holes)
 	// metadata as the reference tool reports it (debugfs stat), filled by refStat
 	ref *refMeta
@@ -85,6 +88,8 @@ type tree struct {
 	nodes map[string]*node
 	// debugfs commands to run after mke2fs (in order)
 	cmds    []string
+	// files with unwritten extents: buildImage fills their reserved blocks with a pattern (stale bytes)
+	prealloc []string
 	hostTmp string // host files written with debugfs `write`
 }
 
@@ -292,6 +297,24 @@ func genTree(r *hx.Rng, dir string, o imgOpts) (*tree, error) {
 		f.Write(data)
 		f.Truncate(int64(len(full)))
 		f.Close()
+	}
+	if o.fstype == "ext4" && !contains(o.feats, "^extents") && !contains(o.feats, "bigalloc") {
+		// data, one unmapped block, five preallocated (unwritten) blocks, one unmapped block at the end
+		data := r.Bytes(3*bs + 17)
+		full := make([]byte, 11*bs)
+		copy(full, data)
+		n, err := mkfile("sp_prealloc", full)
+		if err != nil {
+			return nil, err
+		}
+		n.holes = true
+		n.unwritten = [][2]int{{5, 9}}
+		f, _ := os.Create(t.host("sp_prealloc"))
+		f.Write(data)
+		f.Truncate(int64(len(full)))
+		f.Close()
+		t.cmds = append(t.cmds, "fallocate sp_prealloc 5 9")
+		t.prealloc = append(t.prealloc, "sp_prealloc")
 	}
 	punch := func(p string, nblocks int, holes [][2]int) error {
 		data := r.Bytes(nblocks*bs - r.Intn(bs))
@@ -502,6 +525,37 @@ func buildImage(dir string, o imgOpts, t *tree) (string, string, error) {
 				continue
 			}
 			return "", log.String(), fmt.Errorf("debugfs complained: %s", l)
+		}
+	}
+	// the reserved blocks of unwritten extents hold whatever was there before: make that visible
+	for _, p := range t.prealloc {
+		out, err := run(debugfs, "-R", "ex "+p, img)
+		if err != nil {
+			return "", log.String(), fmt.Errorf("debugfs ex: %w", err)
+		}
+		var zap []string
+		for _, l := range strings.Split(out, "\n") {
+			f := strings.Fields(l)
+			// " 0/ 0   3/  3     8 -    15    89 -    96      8 Uninit"
+			if len(f) < 10 || f[len(f)-1] != "Uninit" {
+				continue
+			}
+			lo, e1 := strconv.Atoi(f[len(f)-5])
+			hi, e2 := strconv.Atoi(f[len(f)-3])
+			if e1 != nil || e2 != nil || hi < lo || hi-lo > 64 {
+				continue
+			}
+			for b := lo; b <= hi; b++ {
+				zap = append(zap, fmt.Sprintf("zap_block -p 0x5a %d", b))
+			}
+		}
+		if len(zap) == 0 {
+			return "", log.String(), fmt.Errorf("no unwritten extent found in %s: %s", p, tail(out, 300))
+		}
+		zf := filepath.Join(dir, "zapcmds")
+		os.WriteFile(zf, []byte(strings.Join(zap, "\n")+"\n"), 0o644)
+		if _, err := run(debugfs, "-w", "-f", zf, img); err != nil {
+			return "", log.String(), fmt.Errorf("debugfs zap_block: %w", err)
 		}
 	}
 	// index the directories (reference tool), then require a clean image
